@@ -200,6 +200,15 @@ def gen_request(rng, endpoint, **over):
     col = sorted(values[k][i] for k in range(n) if not failures[k])
     q = col[int(len(col) * rng.uniform(0.0, 0.8))]
     thresholds[i] = q + rng.choice([0.0, 1e-3, -1e-3]) if rng.random() < 0.8 else q + rng.uniform(-5, 5)
+  thr_mode = over.get("thresholds")
+  if thr_mode in ("all_satisfied", "none_satisfied"):
+    for i in con_idx:
+      col = [values[k][i] for k in range(n)]
+      lo, hi = min(col) - 10.0, max(col) + 10.0
+      # a threshold is a lower bound for a maximised metric and an upper bound for a minimised one
+      sat = lo if objectives[i] == "maximize" else hi
+      unsat = hi if objectives[i] == "maximize" else lo
+      thresholds[i] = sat if thr_mode == "all_satisfied" else unsat
   if n_opt == 2 and rng.random() < 0.4:
     for i in opt_idx:
       if rng.random() < 0.7:
